@@ -597,6 +597,16 @@ func init() {
 			n = 15000
 		}
 		for i := 0; i < n; i++ {
+			if i == 0 {
+				// directed: every operator at the very end of the input, after 0..2 trailing bytes
+				for _, pre := range []string{"", "a/b ", "ssl? ( a/b ) ", "|| ( a/b ) ", "( "} {
+					for _, opr := range []string{"||", "^^", "??", "ssl?", "!ssl?", "(", ")", "|| (", "ssl? (", "!", "|"} {
+						for _, tail := range []string{"", " ", "\n", "\t", "  ", " \t", "\x00"} {
+							emit(Case{"op": "dep.decode", "s": hx(pre + opr + tail)})
+						}
+					}
+				}
+			}
 			// dependency strings from trees
 			depth := g.Intn(5)
 			if g.Chance(1, 40) {
@@ -622,6 +632,15 @@ func init() {
 			text := layout(g, toks)
 			emit(Case{"op": "dep.decode", "s": hx(text), "ast": jr})
 			emit(Case{"op": "dep.decode", "s": hx(mutateDep(g, text))})
+			// truncation right after a token, with 0..2 trailing bytes (error paths that
+			// slice the input near its end)
+			if len(text) > 0 {
+				cut := g.Intn(len(text) + 1)
+				for cut < len(text) && text[cut] > ' ' {
+					cut++
+				}
+				emit(Case{"op": "dep.decode", "s": hx(text[:cut] + g.Pick("", " ", "\n", "\t", "  ", " \n"))})
+			}
 			if i%4 == 0 {
 				m := 1 + g.Intn(6)
 				jt := make([]string, m)
